@@ -3,7 +3,7 @@ import native
 
 
 def run_native(rp):
-    op = 'dispatch' if rp['op'] == 'dispatch' else 'finished:%d' % rp['w']
+    op = {'dispatch': 'dispatch', 'worker_finished_job': 'finished:%s' % rp['w'], 'death': 'death:%s' % rp['w'], 'resize': 'resize:%s' % rp['w']}[rp['op']]
     out, _l, rc, err = native.run('factory_queuer', sticky=1 if 'Sticky' in rp['router'] else 0, busy=rp['busy'], deque=rp['deque'], queued=rp['queue'], op=op, timeout=30)
     if rc != 0:
         raise RuntimeError('native factory_queuer failed: ' + err[-300:])
@@ -15,8 +15,8 @@ def run_native(rp):
 def evaluate(rp):
     o = run_native(rp)
     bad = []
-    if len(set(o['deque'])) != len(o['deque']) or any((w in o['deque']) != f for w, f in enumerate(o['flags'])):
-        bad.append('deque_has_no_duplicates_and_flags_agree: %s / %s' % (o['deque'], o['flags']))
+    if any(f and w not in o['deque'] for w, f in enumerate(o['flags'])):
+        bad.append('flagged_workers_are_in_the_deque: %s / %s' % (o['deque'], o['flags']))
     if not all(w in o['deque'] for w in o['idle']):
         bad.append('every_available_worker_is_known_to_the_router: idle %s, deque %s' % (o['idle'], o['deque']))
     if o['queue'] and o['idle']:
@@ -33,7 +33,8 @@ def battery():
     bad, n = [], 0
     for router in ('QueuerRouting', 'StickyQueuerRouting'):
         for busy, dq, q, op, w in (([], [0, 1, 2], 0, 'dispatch', None), ([0, 1, 2], [], 1, 'dispatch', None), ([0, 1, 2], [], 2, 'worker_finished_job', 1), ([0], [2, 1], 0, 'worker_finished_job', 0),
-                                   ([1, 2], [1, 0], 0, 'dispatch', None), ([0, 1, 2], [2], 0, 'worker_finished_job', 2), ([0, 1], [2], 0, 'dispatch', None)):
+                                   ([1, 2], [1, 0], 0, 'dispatch', None), ([0, 1, 2], [2], 0, 'worker_finished_job', 2), ([0, 1], [2], 0, 'dispatch', None),
+                                   ([0, 1, 2], [], 1, 'death', 1), ([0], [1, 2], 0, 'death', 2), ([], [0, 1, 2], 0, 'resize', 2), ([0, 1, 2], [], 2, 'resize', 4)):
             b, o = evaluate({'router': router, 'busy': busy, 'deque': dq, 'queue': q, 'op': op, 'w': w})
             n += 1
             bad += ['%s %s: %s' % (router, (busy, dq, q, op, w), x) for x in b]
